@@ -243,7 +243,7 @@ func (r *ref) runFrame(ctx fctx, c *Code, tf *tframe) bool {
 	}
 	me := w.get(ctx.self)
 	switch c.Body.Term {
-	case TStop, TReturn, TReturnCode, TReturnBig:
+	case TStop, TReturn, TReturnCode, TReturnBig, TReturnDep:
 		if tf.outcome() != oSuccess {
 			return r.died(ctx, tf, "", where)
 		}
@@ -391,21 +391,7 @@ func (r *ref) callLike(ctx fctx, c *Code, i int, act Action, tc *tcall) {
 		w.transfer(ctx.self, addr, v)
 		ok := r.runFrame(fctx{self: addr, static: false, via: via, depth: ctx.depth + 1}, ic, tc.child)
 		if ok {
-			switch ic.Body.Term {
-			case TReturnCode:
-				if tc.haveAfter && tc.result != nil && tc.result.Sign() == 0 {
-					// the only legitimate reason: the code deposit could not be paid
-					r.count("create_failed_code_store_out_of_gas")
-					r.failed = append(r.failed, failedFrame{via, "code-store-out-of-gas"})
-					ok = false
-				} else {
-					w.get(addr).code = stopCode
-				}
-			case TReturnBig:
-				r.count("create_failed_oversize")
-				r.failed = append(r.failed, failedFrame{via, "max-code-size"})
-				ok = false
-			}
+			ok = r.deposit(via, addr, ic, tc.child)
 		}
 		if !ok {
 			*w = *snap
@@ -421,6 +407,52 @@ func (r *ref) callLike(ctx fctx, c *Code, i int, act Action, tc *tcall) {
 			}
 		}
 	}
+}
+
+// deposit is the last step of a creation whose init code (ic, observed as the
+// frame tf) ended successfully: the returned runtime code is stored if it is
+// not oversize and if the gas the frame has left pays createDataGas per byte.
+// The gas left is read from the observed frame (gas before its last op minus
+// that op's cost); the size of the code is the program's.  A creation that
+// fails here has failed like any other frame: the caller discards everything.
+func (r *ref) deposit(via string, addr common.Address, ic *Code, tf *tframe) bool {
+	var code []byte
+	switch ic.Body.Term {
+	case TReturnCode:
+		code = stopCode
+	case TReturnDep:
+		code = depositCode
+	case TReturnBig:
+		r.count("create_failed_oversize")
+		r.failed = append(r.failed, failedFrame{via, "max-code-size"})
+		return false
+	}
+	if len(code) == 0 {
+		r.count("create_without_code")
+		return true
+	}
+	if tf == nil || tf.last.gas < tf.last.cost {
+		r.note("harness: creation frame without a usable last step", via)
+		return true
+	}
+	left, need := tf.last.gas-tf.last.cost, uint64(len(code))*createDataGas
+	if left < need {
+		r.count("create_failed_code_store_out_of_gas")
+		if len(code) > 1 {
+			r.count("create_failed_code_store_out_of_gas_after_storage_write_and_log")
+		}
+		if left+1 == need {
+			r.count("create_failed_code_store_one_gas_short")
+		}
+		r.failed = append(r.failed, failedFrame{via, "code-store-out-of-gas"})
+		return false
+	}
+	r.count("create_code_deposited")
+	if left == need {
+		r.count("create_code_deposited_with_exactly_the_gas_left")
+	}
+	r.w.get(addr).code = code
+	return true
 }
 
 // runTx interprets one transaction (entry = call of K0 or creation with K0's
@@ -441,6 +473,9 @@ func (r *ref) runTx(p *Program, codes [3]*Code, root *tframe) (ok bool, created 
 		w.get(addr).nonce = 1
 		w.transfer(addrO, addr, v)
 		ok = r.runFrame(fctx{self: addr, via: "tx(create)", depth: 1}, codes[0], root)
+		if ok {
+			ok = r.deposit("tx(create)", addr, codes[0], root)
+		}
 		if !ok {
 			*w = *snap
 		}
